@@ -580,6 +580,14 @@ class Interp:
         return "%s:%s" % (node.get("_file", "?"), node.get("_line", "?"))
 
     def safety_fail(self, kind, node, detail, model=None):
+        if model is None and (self.pc or self.unknown_forks):
+            # concrete failure on a path whose feasibility rests on earlier solver answers: confirm it
+            r, model = self.check()
+            if r == "unsat":
+                raise EndPath("infeasible path")
+            if r != "sat":
+                self.safety_unknown.append((kind, self.where(node), detail + " (path feasibility undecided)"))
+                raise EndPath("path feasibility undecided")
         self.safety.append({"kind": kind, "where": self.where(node), "detail": detail, "fn": self.fn_stack[-1] if self.fn_stack else "?",
                             "model": model, "pc": list(self.pc)})
 
